@@ -1,8 +1,318 @@
 /-
-  C04 — property theorems (only `theorem C04_*` statements and non-vacuity examples live here;
-  helper lemmas go to CedarGoProofs/Lemmas/).
+  C04 — Policy compilation (constant folding) never changes a policy's meaning.
+  `fold` is the transcription of internal/eval/fold.go; `compile` of `eval.Compile`.
+  Main theorem: for EVERY expression and EVERY environment, evaluating the folded tree gives the
+  same value or the same error kind as evaluating the original tree.
 -/
 import CedarGo.Model.Fold
+import CedarGo.Generated.Facts
 namespace CedarGo
 
+/-! ### Literal-only operands make the closed operators independent of the environment -/
+
+theorem isLit_eq {e : Expr} (h : e.isLit = true) : ∃ v, e = .lit v := by
+  cases e <;> simp [Expr.isLit] at h
+  exact ⟨_, rfl⟩
+
+theorem evalList_lits (es : List Expr) (h : es.all Expr.isLit = true) (env env' : Env) :
+    evalList es env = evalList es env' := by
+  induction es with
+  | nil => rfl
+  | cons e es ih =>
+    simp only [List.all_cons, Bool.and_eq_true] at h
+    obtain ⟨v, rfl⟩ := isLit_eq h.1
+    simp only [evalList, eval, ih h.2]
+
+theorem evalKVs_lits (kes : List (String × Expr)) (h : kes.all (fun ke => ke.2.isLit) = true) (env env' : Env) :
+    evalKVs kes env = evalKVs kes env' := by
+  induction kes with
+  | nil => rfl
+  | cons ke kes ih =>
+    obtain ⟨k, e⟩ := ke
+    simp only [List.all_cons, Bool.and_eq_true] at h
+    obtain ⟨v, rfl⟩ := isLit_eq h.1
+    simp only [evalKVs, eval, ih h.2]
+
+theorem evalTyped_lits (es : List Expr) (ks : List Kind) (h : es.all Expr.isLit = true) (env env' : Env) :
+    evalTyped es ks env = evalTyped es ks env' := by
+  induction es generalizing ks with
+  | nil => rfl
+  | cons e es ih =>
+    simp only [List.all_cons, Bool.and_eq_true] at h
+    obtain ⟨v, rfl⟩ := isLit_eq h.1
+    simp only [evalTyped, eval, ih _ h.2]
+
+/-- the last step of `tryFold`: replacing a closed operator by the literal it evaluates to (in the
+    empty environment) preserves meaning, provided the operator's value does not depend on the
+    environment; an erroring evaluation keeps the operator, so errors are never folded away. -/
+theorem tryFoldNode_preserves (allLit forced : Bool) (node : Expr)
+    (h : (allLit && !forced) = true → ∀ env env', eval node env = eval node env') (env : Env) :
+    eval (tryFoldNode allLit forced node) env = eval node env := by
+  unfold tryFoldNode
+  split
+  · rename_i hc
+    cases he : eval node emptyEnv with
+    | ok v => simp only; rw [h hc env emptyEnv, he]; simp [eval]
+    | error k => rfl
+  · rfl
+
+/-- Which operators `fold.go` evaluates over literals, and that none of them reads the environment. -/
+theorem C04_closedOp_env_irrelevant_binop (op : BinOp) (a b : Value)
+    (hop : (op == .in_ || op == .getTag || op == .hasTag) = false) (env env' : Env) :
+    eval (.binop op (.lit a) (.lit b)) env = eval (.binop op (.lit a) (.lit b)) env' := by
+  cases op <;> simp at hop <;> simp [eval]
+
+theorem C04_closedOp_env_irrelevant_access (v : Value) (attr : String) (hv : isEntityLit (.lit v) = false) (env env' : Env) :
+    eval (.access (.lit v) attr) env = eval (.access (.lit v) attr) env' ∧
+    eval (.has (.lit v) attr) env = eval (.has (.lit v) attr) env' := by
+  cases v <;> simp [isEntityLit] at hv <;> simp [eval, bind, Except.bind]
+
+mutual
+/-- **Folding preserves meaning**: same value, or same error kind, in every environment. -/
+theorem C04_fold_preserves : ∀ (e : Expr) (env : Env), eval (fold e) env = eval e env
+  | .lit v, env => by simp [fold]
+  | .var v, env => by simp [fold]
+  | .unop op e, env => by
+    have ih := C04_fold_preserves e
+    simp only [fold]
+    rw [tryFoldNode_preserves]
+    · cases op <;> simp only [eval, ih]
+    · intro hc env env'
+      simp only [Bool.not_false, Bool.and_true] at hc
+      obtain ⟨v, hv⟩ := isLit_eq hc
+      rw [hv]; cases op <;> simp [eval]
+  | .binop op l r, env => by
+    have ihl := C04_fold_preserves l
+    have ihr := C04_fold_preserves r
+    simp only [fold]
+    rw [tryFoldNode_preserves]
+    · cases op <;> simp only [eval, ihl, ihr]
+    · intro hc env env'
+      simp only [Bool.and_eq_true, Bool.not_eq_true'] at hc
+      obtain ⟨⟨hl, hr⟩, hforced⟩ := hc
+      obtain ⟨a, ha⟩ := isLit_eq hl
+      obtain ⟨b, hb⟩ := isLit_eq hr
+      rw [ha, hb]
+      exact C04_closedOp_env_irrelevant_binop op a b hforced env env'
+  | .ite c t e, env => by
+    have ihc := C04_fold_preserves c
+    have iht := C04_fold_preserves t
+    have ihe := C04_fold_preserves e
+    simp only [fold]
+    rw [tryFoldNode_preserves]
+    · simp only [eval, ihc, iht, ihe]
+    · intro hc env env'
+      simp only [Bool.not_false, Bool.and_true, Bool.and_eq_true] at hc
+      obtain ⟨a, ha⟩ := isLit_eq hc.1.1
+      obtain ⟨b, hb⟩ := isLit_eq hc.1.2
+      obtain ⟨d, hd⟩ := isLit_eq hc.2
+      rw [ha, hb, hd]; simp [eval]
+  | .access e a, env => by
+    have ih := C04_fold_preserves e
+    simp only [fold]
+    rw [tryFoldNode_preserves]
+    · simp only [eval, ih]
+    · intro hc env env'
+      simp only [Bool.and_eq_true, Bool.not_eq_true'] at hc
+      obtain ⟨v, hv⟩ := isLit_eq hc.1
+      rw [hv] at hc ⊢
+      exact (C04_closedOp_env_irrelevant_access v a hc.2 env env').1
+  | .has e a, env => by
+    have ih := C04_fold_preserves e
+    simp only [fold]
+    rw [tryFoldNode_preserves]
+    · simp only [eval, ih]
+    · intro hc env env'
+      simp only [Bool.and_eq_true, Bool.not_eq_true'] at hc
+      obtain ⟨v, hv⟩ := isLit_eq hc.1
+      rw [hv] at hc ⊢
+      exact (C04_closedOp_env_irrelevant_access v a hc.2 env env').2
+  | .like e p, env => by
+    have ih := C04_fold_preserves e
+    simp only [fold]
+    rw [tryFoldNode_preserves]
+    · simp only [eval, ih]
+    · intro hc env env'
+      simp only [Bool.not_false, Bool.and_true] at hc
+      obtain ⟨v, hv⟩ := isLit_eq hc
+      rw [hv]; simp [eval]
+  | .is e ty, env => by
+    have ih := C04_fold_preserves e
+    simp only [fold]
+    rw [tryFoldNode_preserves]
+    · simp only [eval, ih]
+    · intro hc env env'
+      simp only [Bool.not_false, Bool.and_true] at hc
+      obtain ⟨v, hv⟩ := isLit_eq hc
+      rw [hv]; simp [eval]
+  | .isIn e ty r, env => by
+    have ihe := C04_fold_preserves e
+    have ihr := C04_fold_preserves r
+    simp only [fold]
+    rw [tryFoldNode_preserves]
+    · simp only [eval, ihe, ihr]
+    · intro hc; simp at hc
+  | .set es, env => by
+    have ih := C04_foldList_preserves es
+    simp only [fold]
+    rw [tryFoldNode_preserves]
+    · simp only [eval, ih]
+    · intro hc env env'
+      simp only [Bool.not_false, Bool.and_true] at hc
+      simp only [eval, evalList_lits _ hc env env']
+  | .record kes, env => by
+    have ih := C04_foldKVs_preserves kes
+    simp only [fold]
+    rw [tryFoldNode_preserves]
+    · simp only [eval, ih]
+    · intro hc env env'
+      simp only [Bool.not_false, Bool.and_true] at hc
+      simp only [eval, evalKVs_lits _ hc env env']
+  | .call fn args, env => by
+    have ih := C04_foldTyped_preserves args
+    have hlen : (foldList args).length = args.length := foldList_length args
+    simp only [fold]
+    rw [tryFoldNode_preserves]
+    · simp only [eval, ih, hlen]
+    · intro hc env env'
+      simp only [Bool.not_false, Bool.and_true] at hc
+      simp only [eval, evalTyped_lits _ _ hc env env']
+theorem C04_foldList_preserves : ∀ (es : List Expr) (env : Env), evalList (foldList es) env = evalList es env
+  | [], _ => rfl
+  | e :: es, env => by
+    simp only [foldList, evalList, C04_fold_preserves e env, C04_foldList_preserves es env]
+theorem C04_foldKVs_preserves : ∀ (kes : List (String × Expr)) (env : Env), evalKVs (foldKVs kes) env = evalKVs kes env
+  | [], _ => rfl
+  | (k, e) :: kes, env => by
+    simp only [foldKVs, evalKVs, C04_fold_preserves e env, C04_foldKVs_preserves kes env]
+theorem C04_foldTyped_preserves : ∀ (es : List Expr) (ks : List Kind) (env : Env),
+    evalTyped (foldList es) ks env = evalTyped es ks env
+  | [], _, _ => rfl
+  | e :: es, ks, env => by
+    simp only [foldList, evalTyped, C04_fold_preserves e env, C04_foldTyped_preserves es ks.tail env]
+theorem foldList_length : ∀ (es : List Expr), (foldList es).length = es.length
+  | [] => rfl
+  | e :: es => by simp [foldList, foldList_length es]
+end
+
+/-- Folding never turns an error into a value nor a value into an error (corollary). -/
+theorem C04_fold_keeps_errors (e : Expr) (env : Env) (k : Err) :
+    eval e env = .error k ↔ eval (fold e) env = .error k := by rw [C04_fold_preserves]
+
+/-- `andAll` evaluates its conjuncts only through `eval`, so conjunct-wise equal meaning gives equal meaning -/
+theorem eval_andAll_congr (e e' : Expr) (rest rest' : List Expr) (env : Env)
+    (h0 : eval e env = eval e' env) (hlen : rest.length = rest'.length)
+    (h : ∀ i (h1 : i < rest.length) (h2 : i < rest'.length), eval rest[i] env = eval rest'[i] env) :
+    eval (andAll e rest) env = eval (andAll e' rest') env := by
+  induction rest generalizing e e' rest' with
+  | nil =>
+    cases rest' with
+    | nil => simpa [andAll] using h0
+    | cons _ _ => simp at hlen
+  | cons x xs ih =>
+    cases rest' with
+    | nil => simp at hlen
+    | cons y ys =>
+      simp only [andAll, eval, h0]
+      have hxy := h 0 (by simp) (by simp)
+      simp only [List.getElem_cons_zero] at hxy
+      have := ih x y ys hxy (by simpa using hlen) (fun i h1 h2 => by
+        have := h (i + 1) (by simp; omega) (by simp; omega)
+        simpa using this)
+      rw [this]
+
+/-- **What the authorizer runs means what the policy says**: the compiled (folded) policy
+    evaluates, in every environment, exactly like `PolicyToNode` of the original AST. -/
+theorem C04_compile_preserves (p : Policy) (env : Env) :
+    evalBool (compile p) env = evalBool (policyToExpr p) env := by
+  unfold evalBool compile
+  congr 1
+  unfold policyToExpr foldPolicy
+  simp only [List.map_map]
+  generalize hs : (if p.principal.isAll && p.action.isAll && p.resource.isAll then [Expr.lit (.bool true)]
+      else (if p.principal.isAll then [] else [scopeToExpr .principal p.principal])
+        ++ (if p.action.isAll then [] else [scopeToExpr .action p.action])
+        ++ (if p.resource.isAll then [] else [scopeToExpr .resource p.resource])) = scopes
+  have hcond : ∀ c : Bool × Expr, eval (condToExpr (c.1, fold c.2)) env = eval (condToExpr c) env := by
+    intro c
+    unfold condToExpr
+    split
+    · exact C04_fold_preserves c.2 env
+    · simp only [eval, C04_fold_preserves c.2 env]
+  -- both sides are `andAll` over lists of equal length with pointwise equal meaning
+  have hall : ∀ (l1 l2 : List Expr), l1.length = l2.length →
+      (∀ i (h1 : i < l1.length) (h2 : i < l2.length), eval l1[i] env = eval l2[i] env) →
+      eval (match l1 with | [] => .lit (.bool true) | e :: rest => andAll e rest) env =
+      eval (match l2 with | [] => .lit (.bool true) | e :: rest => andAll e rest) env := by
+    intro l1 l2 hlen h
+    cases l1 with
+    | nil => cases l2 with
+      | nil => rfl
+      | cons _ _ => simp at hlen
+    | cons a as => cases l2 with
+      | nil => simp at hlen
+      | cons b bs =>
+        simp only
+        apply eval_andAll_congr
+        · have := h 0 (by simp) (by simp)
+          simpa only [List.getElem_cons_zero] using this
+        · simpa using hlen
+        · intro i h1 h2
+          have := h (i + 1) (by simp; omega) (by simp; omega)
+          simpa using this
+  apply hall
+  · simp
+  · intro i h1 h2
+    by_cases hi : i < scopes.length
+    · simp [List.getElem_append_left, hi]
+    · have hi' : scopes.length ≤ i := by omega
+      simp only [List.getElem_append_right hi', List.getElem_map, Function.comp]
+      exact hcond _
+
+/-- Folding is a pure function of the policy: it never consults an environment (by construction —
+    `fold : Expr → Expr` has no environment argument), and it leaves scope, effect, annotations and
+    position untouched. -/
+theorem C04_foldPolicy_keeps_header (p : Policy) :
+    (foldPolicy p).effect = p.effect ∧ (foldPolicy p).annotations = p.annotations ∧
+    (foldPolicy p).principal = p.principal ∧ (foldPolicy p).action = p.action ∧
+    (foldPolicy p).resource = p.resource ∧ (foldPolicy p).position = p.position ∧
+    (foldPolicy p).conditions.map (·.1) = p.conditions.map (·.1) := by
+  simp [foldPolicy]
+
+/-- The decision computed with compiled policies equals the decision computed with unfolded ones. -/
+theorem C04_authorize_eq_unfolded (ps : List (PolicyID × Policy)) (env : Env) :
+    authorize ps env = authorizeWith policyToExpr ps env := by
+  unfold authorize authorizeWith
+  have : ∀ acc, ps.foldl (authStep compile env) acc = ps.foldl (authStep policyToExpr env) acc := by
+    induction ps with
+    | nil => intro acc; rfl
+    | cons ip ps ih =>
+      intro acc
+      simp only [List.foldl_cons]
+      have : authStep compile env acc ip = authStep policyToExpr env acc ip := by
+        unfold authStep; rw [C04_compile_preserves]
+      rw [this, ih]
+  rw [this]
+
+/-! ### Non-vacuity -/
+
+-- a constant sub-expression that errors is kept; a short-circuit with an ill-typed skipped operand
+-- folds to its value; entity-dependent operators are never folded
+example : (fold (.binop .add (.lit (.long 9223372036854775807)) (.lit (.long 1)))).isLit = false := by decide +kernel
+example : (match fold (.binop .or (.lit (.bool true)) (.lit (.long 1))) with | .lit (.bool true) => true | _ => false) = true := by
+  decide +kernel
+example : (fold (.binop .in_ (.lit (.entity "A" "a")) (.lit (.entity "A" "a")))).isLit = false := by decide +kernel
+example : (fold (.binop .mul (.lit (.long 6)) (.binop .add (.lit (.long 3)) (.lit (.long 4))))).isLit = true := by decide +kernel
+
+end CedarGo
+
+/-! ### Tie to the source: which arms of `fold`'s type switch refuse to fold (regenerated facts) -/
+namespace CedarGo
+/-- The Go `fold` forces an error evaluator (i.e. never folds) exactly for the four operators the
+    model's `forced` flag names, and guards `.`/`has` on an entity literal; and `fold`/`ToEval` cover
+    the same node kinds.  A removed guard or a new arm changes `Facts` and breaks this theorem. -/
+theorem C04_facts_fold_guards :
+    Facts.foldForced = ["ast.NodeTypeGetTag", "ast.NodeTypeHasTag", "ast.NodeTypeIn", "ast.NodeTypeIsIn"] ∧
+    Facts.foldEntityGuard = ["ast.NodeTypeAccess", "ast.NodeTypeHas"] ∧
+    Facts.foldArms = Facts.toEvalArms := by decide
 end CedarGo
